@@ -562,6 +562,57 @@ SYNTH_STATIC = {
         return;
     }
 }''',
+    '__try_fold': '''fn __try_fold(_1: &mut I, _2: B, _3: F) -> R {
+    bb0: {
+        _4 = __iter_next(copy _1) -> [return: bb1, unwind continue];
+    }
+    bb1: {
+        _5 = discriminant(_4);
+        switchInt(move _5) -> [0: bb5, otherwise: bb2];
+    }
+    bb2: {
+        _6 = move ((_4 as Some).0: T);
+        _8 = &mut _3;
+        _7 = __call_value(copy _8, move _2, move _6) -> [return: bb3, unwind continue];
+    }
+    bb3: {
+        _9 = __try_is_output(copy _7) -> [return: bb7, unwind continue];
+    }
+    bb7: {
+        switchInt(move _9) -> [0: bb6, otherwise: bb4];
+    }
+    bb4: {
+        _2 = __try_output(move _7) -> [return: bb0, unwind continue];
+    }
+    bb5: {
+        _0 = __try_from_output(move _2, const 0_usize) -> [return: bb8, unwind continue];
+    }
+    bb6: {
+        _0 = move _7;
+        return;
+    }
+    bb8: {
+        return;
+    }
+}''',
+    '__fold': '''fn __fold(_1: &mut I, _2: B, _3: F) -> B {
+    bb0: {
+        _4 = __iter_next(copy _1) -> [return: bb1, unwind continue];
+    }
+    bb1: {
+        _5 = discriminant(_4);
+        switchInt(move _5) -> [0: bb5, otherwise: bb2];
+    }
+    bb2: {
+        _6 = move ((_4 as Some).0: T);
+        _8 = &mut _3;
+        _2 = __call_value(copy _8, move _2, move _6) -> [return: bb0, unwind continue];
+    }
+    bb5: {
+        _0 = move _2;
+        return;
+    }
+}''',
     # next() of FilterMap / Map / Cloned adaptors
     '__filter_map_next': '''fn __filter_map_next(_1: &mut I) -> Option {
     bb0: {
@@ -942,6 +993,23 @@ def model(ex, st, c, args):
                     if b and from_arg_matches(b, m.group(2)):
                         return ('BODY', b, args)
             raise Unsupported('no From impl %s' % c)
+    m = re.fullmatch(r'<(i16|i32|i64|i128|isize|u16|u32|u64|u128|usize|f64) as From<(i8|i16|i32|i64|u8|u16|u32|u64|bool|char|f32)>>::from', c)
+    if m:
+        dst, src = m.group(1), m.group(2)
+        x = args[0]
+        if dst == 'f64':
+            if src in ('f32', 'bool', 'char'):
+                raise Unsupported(c)
+            return Fl(z3.fpSignedToFP(z3.RNE(), x.t, F64) if src[0] == 'i' else z3.fpUnsignedToFP(z3.RNE(), x.t, F64))
+        bits = INT_BITS[dst]
+        if src == 'bool':
+            return Int(z3.If(x, z3.BitVecVal(1, bits), z3.BitVecVal(0, bits)), dst[0] == 'i')
+        t = x.t
+        if t.size() > bits:
+            raise Unsupported(c)
+        if t.size() < bits:
+            t = z3.SignExt(bits - t.size(), t) if src[0] == 'i' else z3.ZeroExt(bits - t.size(), t)
+        return Int(t, dst[0] == 'i')
     m = re.fullmatch(r'<(u64|usize) as TryInto<(usize|i64)>>::try_into', c)
     if m:
         x = args[0]
@@ -1452,6 +1520,18 @@ def model(ex, st, c, args):
             if radix > 10:
                 d = z3.Or(d, z3.And(z3.UGE(t, ord('a')), z3.ULE(t, ord('a') + radix - 11)), z3.And(z3.UGE(t, ord('A')), z3.ULE(t, ord('A') + radix - 11)))
             return d
+        if f == 'to_digit':
+            radix = ex.concrete_int(args[1])
+            isd = z3.And(z3.UGE(t, ord('0')), z3.ULE(t, ord('0') + min(radix, 10) - 1))
+            val = t - ord('0')
+            if radix > 10:
+                lo = z3.And(z3.UGE(t, ord('a')), z3.ULE(t, ord('a') + radix - 11))
+                up = z3.And(z3.UGE(t, ord('A')), z3.ULE(t, ord('A') + radix - 11))
+                val = z3.If(lo, t - ord('a') + 10, z3.If(up, t - ord('A') + 10, val))
+                isd = z3.Or(isd, lo, up)
+            if B([(isd, 'digit'), (z3.Not(isd), 'nodigit')]) == 'digit':
+                return some(Int(val, False))
+            return none()
         if f in ('is_alphabetic', 'is_alphanumeric', 'is_numeric', 'is_lowercase', 'is_uppercase', 'is_control'):
             return ex.uf('char_' + f, z3.BitVecSort(32), z3.BoolSort())(t)
         if f == 'len_utf8':
@@ -1554,6 +1634,21 @@ def model(ex, st, c, args):
         return AdaptV('filter', args[0], args[1])
     if c.endswith(' as Iterator>::any'):
         return ('BODY', synth_static(ex, '__iter_any'), args)
+    if c.endswith(' as Iterator>::try_fold'):
+        raw = getattr(st, 'cur_raw', '') or ''
+        st.try_kind = 'Option' if re.search(r'try_fold::<.*std::option::Option<|try_fold::<.*, Option<', raw) else 'Result'
+        return ('BODY', synth_static(ex, '__try_fold'), args)
+    if c.endswith(' as Iterator>::fold'):
+        return ('BODY', synth_static(ex, '__fold'), [Ref(st.new_cell(args[0]), []), args[1], args[2]])
+    if c == '__try_is_output':
+        r = args[0]
+        if not isinstance(r, Adt) or r.ty not in ('Result', 'Option') or not isinstance(r.variant, int):
+            raise Unsupported('try_fold over %r' % (r,))
+        return z3.BoolVal(r.variant == (0 if r.ty == 'Result' else 1))
+    if c == '__try_output':
+        return args[0].fields[0]
+    if c == '__try_from_output':
+        return some(args[0]) if getattr(st, 'try_kind', 'Result') == 'Option' else ok(args[0])
     if c.endswith(' as Iterator>::all'):
         return ('BODY', synth_static(ex, '__iter_all'), args)
     if c.endswith(' as Iterator>::collect') or c.endswith(' as Iterator>::last'):
